@@ -390,7 +390,7 @@ pub fn l1_inputs(c: &L1) -> Vec<(u64, u64)> {
     }
 }
 
-fn l1_packet(c: &L1, a: u64, bval: u64) -> Vec<u8> {
+pub fn l1_packet(c: &L1, a: u64, bval: u64) -> Vec<u8> {
     let mut pkt = vec![0u8; PKT_LEN];
     for i in 0..10usize {
         let v = if c.kind == L1Kind::Call && (1..=5).contains(&i) {
@@ -925,7 +925,7 @@ pub fn a2_alphabet() -> Vec<(&'static str, Vec<I>)> {
 
 const L2_REGS: [u8; 5] = [0, 2, 3, 4, 6];
 
-fn l2_states() -> Vec<[u64; 5]> {
+pub fn l2_states() -> Vec<[u64; 5]> {
     vec![
         [1, 2, 3, 5, 7],
         [0x8000000000000001, 0xffffffff80000002, 0x80000003, 0xfffffffffffffffd, 0x7fffffffffffffff],
@@ -933,7 +933,7 @@ fn l2_states() -> Vec<[u64; 5]> {
     ]
 }
 
-fn l2_packet(st: &[u64; 5]) -> Vec<u8> {
+pub fn l2_packet(st: &[u64; 5]) -> Vec<u8> {
     let mut pkt = vec![0u8; PKT_LEN];
     for (n, r) in L2_REGS.iter().enumerate() {
         pkt[8 * *r as usize..8 * *r as usize + 8].copy_from_slice(&st[n].to_le_bytes());
